@@ -130,10 +130,10 @@ class Report:
             print(ln)
         print("%s tier=%s obligations=%d holds=%d known_findings=%d violations=%d analysis_errors=%d wall=%.1fs"
               % (self.prop, self.tier, len(self.results), n_hold, len(matched), n_viol, n_err, time.time() - self.t0))
+        if n_viol:
+            return 1          # a violation was decided on fully understood constructs; undecided obligations are listed too
         if n_err:
             return 2
-        if n_viol:
-            return 1
         return 0
 
     def write_replay(self, r: Result) -> str:
